@@ -483,10 +483,22 @@ class StoreModel:
             if d in ("shutil.copy", "shutil.copyfile", "shutil.copy2") and len(args) >= 2:
                 eff("WRITE_INPLACE", args[1], src=args[0], how=d)
                 return ("none",)
+            if d == "os.open" and args:
+                flags = unparse(e.args[1], 200) if len(e.args) > 1 else ""
+                if "O_EXCL" in flags:
+                    # exclusive creation of a name: a lock-file idiom when the name is not process-unique
+                    eff("CREATE_EXCL", args[0], how=f"os.open({flags})")
+                elif any(x in flags for x in ("O_CREAT", "O_WRONLY", "O_RDWR", "O_TRUNC", "O_APPEND")):
+                    eff("WRITE_INPLACE", args[0], how=f"os.open({flags})", mode="w")
+                else:
+                    eff("READ", args[0], how=f"os.open({flags})")
+                return ("file", args[0])
             if d == "open" and args:
                 mode = args[1] if len(args) > 1 else kwargs.get("mode", ("lit", "r"))
                 m = mode[1] if isinstance(mode, tuple) and mode[0] == "lit" else "?"
-                if any(c in m for c in "wax+"):
+                if "x" in m:
+                    eff("CREATE_EXCL", args[0], how=f"open(mode={m!r})", mode=m)
+                elif any(c in m for c in "wax+"):
                     eff("WRITE_INPLACE", args[0], how=f"open(mode={m!r})", mode=m)
                 else:
                     eff("READ", args[0], how=f"open(mode={m!r})")
